@@ -1025,6 +1025,30 @@ def selftest(tier) -> int:
             if list(a) != list(b) or st.as_str != real.as_str:
                 raise AssertionError('stub text differs from ContentsOfStr on %r' % s)
         n += 1
+    # K9: the transformer of unknown class appends its mark and does not say it is the identity transformer;
+    # a symbol defined as T denotes what T denotes; the shape helpers keep the members in their order
+    for s in texts[:60]:
+        x = L.stub_appender('X0', 'W')
+        if x.is_identity_transformer or x.transform(L.text_model(s)).contents().as_str != s + 'W':
+            raise AssertionError('stub appender on %r' % s)
+        env = L.Env(marks='WXYZ')
+        for tree in (('ref', 'S', ('strip',)), ('seq', ('ref', 'S', ('seq', ('X', 1), ('strip-ts',))), ('X', 0)),
+                     ('attach', ('ref', 'S', ('identity',)), ('seq', ('X', 2), ('identity',))),
+                     ('attach-ddv', ('X', 3), ('ref', 'S', ('seq', ('strip-tnl',), ('X', 0))))):
+            real = L.real_transformer(tree, env).transform(L.text_model(s)).contents().as_str
+            folded = s
+            for member in L.leaves_in_order(tree):
+                folded = L.ref_transformer(member, folded, env)
+            if real != L.ref_transformer(tree, s, env) or real != folded:
+                raise AssertionError('K9 helpers: %r on %r' % (tree, s))
+            n += 1
+    shape = ('seq', ('ref', 'S', ('seq', 0, ('seq', 1, 2))), ('attach', 3))
+    if L.leaves_in_order(L.instantiate(shape, ['a', 'b', 'c', 'd'])) != ['a', 'b', 'c', 'd']:
+        raise AssertionError('instantiate / leaves_in_order')
+    if not L.ref_is_identity(('seq', ('identity',), ('ref', 'S', ('seq', ('identity',), ('identity',))))) \
+            or L.ref_is_identity(('seq', ('identity',), ('ref', 'S', ('seq', ('identity',), ('X', 0))))):
+        raise AssertionError('ref_is_identity')
+    n += 3
     return n
 
 
@@ -1044,6 +1068,8 @@ ASSUMPTIONS = [
     'K4: re.Pattern.sub returns some str (uninterpreted); K1/K2/K5/K6: CrossHair 0.0.110 models of re.search / '
     're.fullmatch / re.sub for the stated regex family (no `$`, which the tool mis-models before a final new-line; '
     'no empty matches in sub, which the tool mis-models)',
+    'K9: the members of unknown class (X<i>) honour the contract of StringTransformer: transform gives a text, '
+    'is_identity_transformer is the default of the base class (False); the marks they append are concrete and distinct',
     'replacement strings of the real-`re` replace obligations are literals (CrossHair realises the template of '
     're.Match.expand); the symbolic replacement string is covered by K4 where the substitution is uninterpreted',
 ]
@@ -1055,6 +1081,10 @@ OUTSIDE = [
     '(what is passed to re.sub is checked in K4; what re.sub makes of it is the semantics of `re`)',
     '`equals` when both texts depend on external resources (file-file comparison): C14-K3',
     'run-program matchers / transformers and replace-test-case-dirs (need processes / a sandbox)',
+    'the code that runs a program and applies the attached transformation to its output (file_transformation_utils, '
+    'actors.program.execution, transformed_by_program: processes and files); K9 drives what these sites compute before '
+    'they decide to skip the transformation - sequence_resolving.resolve of the attached transformers and its '
+    'is_identity_transformer - and proves that it is true only if the documented meaning is the identity',
     'texts longer than the stated bound (the loops are linear in the number of lines; no induction over it)',
     '`filter -line-nums` and the interval optimisation of `filter` beyond single comparisons: C13',
 ]
